@@ -208,8 +208,24 @@ proof fn lemma_ids_mono(t: Type, n: int, m: int)
     ensures ids_in_range(t, m),
 {
 }
+/// the ids a deferred constraint mentions are below n
+spec fn con_in_range(c: Constraint, n: int) -> bool {
+    match c {
+        Constraint::Add(x) => x.0 < n, Constraint::Sub(x) => x.0 < n, Constraint::Mul(x) => x.0 < n,
+        Constraint::DivTop(x) => x.0 < n, Constraint::DivBot(x) => x.0 < n, Constraint::DivRes(x) => x.0 < n,
+        Constraint::Equ(x) => x.0 < n, Constraint::Cmp(x) => x.0 < n, Constraint::CmpEqu(x) => x.0 < n,
+        Constraint::ConstantIndex(_, x) => x.0 < n,
+        Constraint::Field(_, x) => x.0 < n,
+        Constraint::Variant(_, Some(x)) => x.0 < n,
+        _ => true,
+    }
+}
+spec fn cons_in_range(m: Map<Constraint, Span>, n: int) -> bool {
+    forall|c: Constraint| #[trigger] m.dom().contains(c) ==> con_in_range(c, n)
+}
+/// every id stored in a node - in its type or in a deferred constraint - is a node of the graph
 spec fn ids_closed(ts: Seq<TypeNode>) -> bool {
-    forall|i: int| 0 <= i < ts.len() ==> ids_in_range((#[trigger] ts[i]).ty, ts.len() as int)
+    forall|i: int| 0 <= i < ts.len() ==> ids_in_range((#[trigger] ts[i]).ty, ts.len() as int) && cons_in_range(ts[i].constraints@, ts.len() as int)
 }
 /// sum of the `size` counters of the roots among the first n nodes
 spec fn root_size_sum(ts: Seq<TypeNode>, n: int) -> int decreases n {
@@ -1735,6 +1751,9 @@ impl TypeChecker {
                         ret is Some ==> self.valid(ret->Some_0), value is Some ==> self.valid(value->Some_0), //# C07 expression.loop4.aux6
                         forall|k: int| 0 <= k < it.index@ ==> cb_str(vs, #[trigger] branches@[k], il, ip), //# C04,C05 expression.loop4.arms_checked
 //@   endloop
+//@   ghost loop-body 4
+                proof { if branch.variable is Some { lemma_var_valid(self, branch.variable->Some_0 as int); } }
+//@   endghost
 //@   ghost before-loop 5
                 let ghost n5 = self.types@.len();
 //@   endghost
@@ -1890,6 +1909,7 @@ impl TypeChecker {
 //@   endrewrite
 //@   spec
         requires old(self).inv2(), old(self).valid(a), //# C07 add_constraint.pre.id_in_range
+            con_in_range(constraint, old(self).types@.len() as int), //# C02,C07 add_constraint.pre.constraint_ids_in_range
         ensures final(self).inv2(), final(self).grows(old(self)), //# C02 add_constraint.keeps_invariant
             same_partition_and_types(old(self).types@, final(self).types@), //# C02 add_constraint.only_constraints_change
             cons_of(final(self).types@, a.0 as int) == cons_of(old(self).types@, a.0 as int).insert(constraint), //# C02 add_constraint.records_the_constraint_on_the_class
